@@ -77,6 +77,11 @@ func FromG(g gmars.Instruction) (ref.Instr, bool) {
 	return r, ok
 }
 
+// ValidG: every enumerated component is one the data model defines.
+func ValidG(g gmars.Instruction) bool {
+	return g.Op <= gmars.NOP && g.OpMode <= gmars.I && g.AMode <= gmars.B_INCREMENT && g.BMode <= gmars.B_INCREMENT
+}
+
 func CodeToG(code []ref.Instr) []gmars.Instruction {
 	out := make([]gmars.Instruction, len(code))
 	for i, c := range code {
